@@ -652,13 +652,16 @@ func (g *docgen) matrix() *dv {
 			} else {
 				a.set("with", g.maybeWrong(sx.Pick(g.rng, []*dv{dStr("banana"), dInt(47), dBool(false), g.str(), dStr("")}), 10))
 			}
-			switch g.rng.Intn(5) {
+			switch g.rng.Intn(6) {
 			case 0:
 				a.set("skip", dBool(true))
 			case 1:
 				a.set("skip", dBool(false))
 			case 2:
 				a.set("skip", dStr("reason "+g.mark()))
+			case 3:
+				// anything but false and null means skip - also values that look empty
+				a.set("skip", sx.Pick(g.rng, []*dv{dStr(""), dInt(0), dFloat(0), dList(), dMap(), dInt(1), dList(dStr("r")), dMap(dkv{"why", dStr("r")}), dNull()}))
 			}
 			if g.rng.Chance(40) {
 				a.set("soft_fail", g.anyValue(1))
